@@ -212,6 +212,7 @@ func cmdCheck(args []string) int {
 	violations := 0
 	machinery := 0
 	nObl, nDis := 0, 0
+	nCross := 0
 	bySolver := map[string]int{}
 	solverSecs := 0.0
 	var samples []string
@@ -263,6 +264,15 @@ func cmdCheck(args []string) int {
 			samples = append(samples, o.Name+" :: "+o.Text)
 		}
 		if st == "unsat" {
+			agree := 0
+			for _, v := range o.Result.All {
+				if v == "unsat" {
+					agree++
+				}
+			}
+			if agree >= 2 {
+				nCross++
+			}
 			nDis++
 			bySolver[o.Result.Solver+"/"+o.Result.Phase]++
 			continue
@@ -350,6 +360,7 @@ func cmdCheck(args []string) int {
 		"discharged_by": bySolver, "solver_seconds_total": round2(solverSecs), "load_seconds": round2(loadS),
 		"known_findings_reported": knownHit, "failed_obligations": failures, "untranslatable": unsup,
 		"explanation": lv.Expl,
+		"confirmed_by_two_or_more_solvers": nCross,
 		"rule":        "one SMT query per named obligation generated from the SSA of /repo's working tree; an obligation counts as discharged only if a solver answers unsat",
 	}
 	ev := map[string]interface{}{
